@@ -222,6 +222,9 @@ BasicBody == PJ(<<F("qAPPLICATION"), V("str", "qOCTET"), F("NIL"), V("nstr", "NI
 BasicExt  == PJ(<<F("qAPPLICATION"), V("str", "qOCTET"), F("NIL"), V("nstr", "NIL"), V("nstr", "NIL"), V("str", "qBASE64"),
                   V("n32", "n100"), V("nstr", "NIL"), DspNil, V("nstr", "qEN")>>)
 MsgBody   == PJ(<<F("qMESSAGE"), F("qRFC822"), F("NIL"), Fields, EnvNil, TextBody0, V("n64", "n7")>>)
+\* the short form some servers send for an encapsulated message: basic fields only, no envelope / structure / lines
+MsgShort  == PJ(<<F("qMESSAGE"), F("qRFC822"), F("NIL"), Fields>>)
+MpMsgShort == P(Cat(<<TextBody0, MsgShort>>) \o sp \o V("str", "qMIXED"))
 MpBody    == P(Cat(<<TextBody0, BasicBody>>) \o sp \o V("str", "qMIXED"))
 MpExt     == P(Cat(<<TextBody0, TextBody0>>) \o sp \o J(<<V("str", "qMIXED"), PJ(<<V("str", "qA"), V("str", "qB")>>), Dsp, Langs,
                                                           V("nstr", "qLoc")>>))
@@ -251,6 +254,8 @@ FetchBases(k) ==
     BN(k, "fetch.body.basic", Un(Fetch("n1", <<F("UID"), V("uid", "n7"), F("BODY"), BasicBody>>))),
     BN(k, "fetch.bs.basic", Un(Fetch("n1", <<F("UID"), V("uid", "n7"), F("BODYSTRUCTURE"), BasicExt>>))),
     BN(k, "fetch.bs.msg",   Un(Fetch("n1", <<F("UID"), V("uid", "n7"), F("BODYSTRUCTURE"), MsgBody>>))),
+    BN(k, "fetch.bs.msgshort", Un(Fetch("n1", <<F("UID"), V("uid", "n7"), F("BODYSTRUCTURE"), MsgShort>>))),
+    BN(k, "fetch.body.mpmsgshort", Un(Fetch("n1", <<F("UID"), V("uid", "n7"), F("BODY"), MpMsgShort>>))),
     BN(k, "fetch.bs.msgnest", Un(Fetch("n1", <<F("UID"), V("uid", "n7"), F("BODYSTRUCTURE"), Nest("msg", TextBody0)>>))),
     BN(k, "fetch.bs.mp",    Un(Fetch("n1", <<F("UID"), V("uid", "n7"), F("BODYSTRUCTURE"), MpBody>>))),
     BN(k, "fetch.bs.mpext", Un(Fetch("n1", <<F("UID"), V("uid", "n7"), F("BODYSTRUCTURE"), MpExt>>))),
